@@ -9,6 +9,8 @@ Import ListNotations.
 Require Import PV.Infer.Mini PV.Proofs.InferBase PV.Proofs.InferSound PV.Proofs.InferStmt.
 Require Import PV.Gen.Ops PV.Ops.SeqIndex PV.Proofs.OpsSeqIndex PV.Proofs.InferCompose.
 Require Import PV.Scopes.Syntax PV.Scopes.Analysis PV.Scopes.Paths PV.Scopes.Guards.
+Require PV.Narrow.Base PV.Narrow.Model PV.Narrow.Guards.
+Require Import PV.Proofs.InferNarrowBridge.
 
 (* the property on the mini-language, guarded: == is only narrowed against non-numeric literals
    (stmt_okb).  For every program the analysis accepts — with whatever loop invariants `inv` the
@@ -153,3 +155,39 @@ Theorem C01_name_never_unreachable_from_C09 : forall (vals : node -> val) p u d 
   VUnion (map vals (reported p u)) <> VNever.
 Proof. exact name_value_never_unreachable_from_c09. Qed.
 Print Assumptions C01_name_never_unreachable_from_C09.
+
+(* ---- composition with C02 (Narrow/Model.v: the model of pyanalyze's constraint machinery — predicates,
+   Constraint.apply_to_value, constrain_value — tied to the source by the C02 translators and
+   correspondence).  Common fragment: None / bool / int / str objects; Any, literal and class values and
+   unions of them; truthiness, `is None`, isinstance(x, c), `== literal`.  emb / embv / embk embed Mini's
+   objects, values and condition kinds into the C02 universe. *)
+
+(* the two membership relations agree *)
+Theorem C01_membership_agrees_with_C02 : forall o v, atom o = true -> frag v = true ->
+  Narrow.Base.member (emb o) (embv v) = Mini.member o v.
+Proof. exact emb_member. Qed.
+Print Assumptions C01_membership_agrees_with_C02.
+
+(* the run-time meanings of the conditions agree *)
+Theorem C01_condition_meaning_agrees_with_C02 : forall k o, atom o = true -> atom_k k = true ->
+  Narrow.Model.holds (embk k) (emb o) = Some (Mini.atom_holds k o).
+Proof. exact emb_holds. Qed.
+Print Assumptions C01_condition_meaning_agrees_with_C02.
+
+(* whatever the C02 model keeps of a (non-union) value, Mini's narrow1 keeps *)
+Theorem C01_narrowing_covers_C02 : forall k p w o,
+  atom o = true -> fragv w = true -> atom_k k = true -> Mini.member o w = true ->
+  Narrow.Base.member (emb o) (Narrow.Model.apply_constr (c02k k p) (Narrow.Base.plain (embv1 w))) = true ->
+  exists w', Mini.narrow1 k p w = Some w' /\ Mini.member o w' = true.
+Proof. exact narrow1_covers_c02. Qed.
+Print Assumptions C01_narrowing_covers_C02.
+
+(* "narrowing keeps the actual value" on the common fragment as a corollary of
+   C02_narrow_keeps_value_partial (guard: C02's own quantifier restriction for ==: an object equal to
+   the literal is the literal; it is implied by Mini's syntactic guard atom_okb) *)
+Theorem C01_narrowing_keeps_value_from_C02 : forall k p v o,
+  atom o = true -> frag v = true -> atom_k k = true -> eq_ok k o = true ->
+  Mini.member o v = true -> Mini.atom_holds k o = p ->
+  Mini.member o (Mini.narrow_val k p v) = true.
+Proof. exact narrowing_keeps_value_from_c02. Qed.
+Print Assumptions C01_narrowing_keeps_value_from_C02.
